@@ -6,6 +6,21 @@ site arrangement against Model/Perms.v; labels and dimensions after roll / enlar
 Model/MpsForm.v)  +  oracle: the dense state (finite; numpy only) resp. explicit unit-cell tensors contracted with
 the transfer matrix (infinite) are transformed by the DOCUMENTED map and compared with the MPS after every operation
 (psi.norm included), for states in every stored form and with non-uniform bond dimensions.
+
+streams
+  finite / infinite / fermi-terms   random histories (generators below)
+  options-finite / -infinite / -segment   stratified (harness/c09_ext.py): every value class of every parameter of every
+            transformation method (table c09_cover.OPTION_SPACE; incl. compute_K, perturb, subspace_expansion, get_grouped_mps,
+            extract_segment, extract_enlarged_segment, gauge_total_charge, copy) on every boundary condition it documents -
+            finite chains, infinite unit cells, SEGMENTS of finite and infinite states (dense state U_L.theta.V_R in the original
+            bases of the outer legs) - each call between earlier operations and later ones that use its result; objects returned
+            by copy / get_grouped_mps / add / extract_segment / extract_enlarged_segment are continued while a bitwise fingerprint
+            of the original is compared again at the end (aliasing)
+  refusals  calls the documentation excludes have to raise and leave the state as it was
+coverage (evidence + correspondence failures): public names of MPSGeometry / BaseMPSExpectationValue / MPS read from the source
+  of the tree under test have to be exercised here or classified (c09_cover.CLASSIFY); every parameter of an exercised method
+  needs an option space all of whose value classes were received by calls in this run (logged inside the runner); the
+  statements of the exercised methods executed in the runner processes are listed (sys.monitoring) with the unreached ones.
 """
 import os
 for _v in ('OMP_NUM_THREADS', 'OPENBLAS_NUM_THREADS', 'MKL_NUM_THREADS'):
@@ -27,6 +42,8 @@ K_INV = 'C09:spatial_inversion:infinite:_S-reversed-instead-of-mirrored-around-b
 K_GROUP = 'C09:group_sites:last-group-has-one-site:get_theta(n=1)-ignores-formL-formR'
 K_ADD = 'C09:add:same-charge-sector:per-tensor-qtotal-differs:ValueError-wrong-qtotal'
 K_CPLX = 'C09:apply_local_op:infinite:complex-nonunitary-op-on-real-iMPS:canonical_form_infinite1-result-not-canonical'
+K_VAR = 'C09:compress:variational:reported-max_trunc_err-is-that-of-the-last-sweep-only'
+K_SINV = 'C09:spatial_inversion:segment-with-recorded-boundaries:segment_boundaries-not-mirrored'
 K_ALIAS = 'C09:enlarge_mps_unit_cell:copies-of-the-unit-cell-share-tensor-objects:later-in-place-update-acts-on-both:psi.norm'
 K_SUBEXP = 'C09:subspace_expansion:conserved-charges:singular-values-not-reordered-with-the-bond-basis'
 K_SINGLE = 'C09:apply_product_op:ops-is-a-single-npc-Array:TypeError-no-len'
@@ -552,6 +569,16 @@ def rdm_axes(vec, keep):
     return rho / np.trace(rho)
 
 
+def broken_inversion(ops_before, obs):
+    """a spatial_inversion of a segment with recorded boundaries lies in the history (known finding K_SINV: every later
+    operation works on wrong boundaries)"""
+    for j, o2 in enumerate(ops_before):
+        if o2['op'] == 'spatial_inversion' and j < len(obs) and obs[j] is not None and obs[j].get('bc') == 'segment' and \
+                (obs[j].get('seg_bound') or [False])[0]:
+            return True
+    return False
+
+
 def ees_range(op):
     """(new_first, new_last) of extract_enlarged_segment as documented"""
     first, last = op['first'], op['last']
@@ -744,6 +771,8 @@ def check_finite_case(ctx, case, r, A, key, D, SI, perm_lits, perm_meta):
         if opn == 'group_split' and mk is None and step >= 2 and ops[step - 2]['op'] == 'group_sites' and \
                 prev is not None and prev['L'] % ops[step - 2].get('n', 2) == 1:
             mk = K_GROUP
+        if mk is None and broken_inversion(ops[:step], obs):
+            mk = K_SINV
         opts = {k_: v_ for k_, v_ in ops[step - 1].items() if k_ not in ('op', 'mat', 'other', 'ops', 'rdm_after', 'parent')} if step > 0 else {}
         ctx.fail('oracle', '%s%s on a %s MPS (built by %s, stored forms before: %s; history %s): %s' % (
             opn, opts if step > 0 else '', bcname, method, prev_form, [o['op'] for o in ops[:step]], msg), info, match_key=mk or 'C09:%s:%s' % (bcname, opn))
@@ -849,15 +878,16 @@ def check_finite_case(ctx, case, r, A, key, D, SI, perm_lits, perm_meta):
             bound = nsteps * np.arcsin(min(1., np.sqrt(max(0., eps) / nsteps)))
             if ref.trunc == 'variational':       # eps is the LARGEST two-site truncation error of the last sweep
                 bound = 2 * nsteps * np.arcsin(min(1., np.sqrt(max(0., eps))))
+            kvar = K_VAR if (ref.trunc == 'variational' and (opn.get('options') or {}).get('max_sweeps', 2) >= 2) else None
             if angle > bound + 1e-6:
-                fail('truncation changed the state by angle %.3e, the reported truncation error eps=%.3e allows at most %.3e' % (angle, eps, bound), k)
+                fail('truncation changed the state by angle %.3e, the reported truncation error eps=%.3e allows at most %.3e' % (angle, eps, bound), k, kvar)
             if eps < 1e-20 and angle > 1e-6:
-                fail('no truncation reported but the state changed', k)
+                fail('no truncation reported but the state changed', k, kvar)
             if L == 2 and ref.trunc is True and abs((1 - ov ** 2) - eps) > 1e-8:
                 fail('single truncated bond: 1-|<psi|psi_c>|^2 = %.3e, reported eps = %.3e' % (1 - ov ** 2, eps), k)
             nn = abs(nrm) / scale
             if nn > 1 + 1e-9 or nn ** 2 < (1 - eps) - 1e-7 - 2 * eps ** 2 * nsteps - (2 * eps * nsteps if ref.trunc == 'variational' else 0):
-                fail('norm after truncation %.6f x old norm, inconsistent with eps=%.3e' % (nn, eps), k)
+                fail('norm after truncation %.6f x old norm, inconsistent with eps=%.3e' % (nn, eps), k, kvar)
             if opn and 'chi_max' in (opn.get('trunc') or opn.get('trunc_par') or {}) and o.get('chi') and ref.trunc in (True, 'variational') and \
                     max(o['chi']) > (opn.get('trunc') or opn.get('trunc_par'))['chi_max']:
                 fail('bond dimensions %s after compression with chi_max=%d' % (o['chi'], (opn.get('trunc') or opn.get('trunc_par'))['chi_max']), k)
@@ -1554,6 +1584,26 @@ def main(ctx):
     refl, stm = c09_cover.reflect()
     tnames = c09_cover.trace_names(refl)
     results, errs, cov_lines, optlog = run_chunks(script, cases, tnames)
+    for attempt in range(2):
+        # value classes whose calls were all refused / annihilated the state: draw again (the table below needs every class)
+        lack = c09_cover.missing_classes(refl, optlog)
+        if not lack or errs:
+            break
+        extra = c09_ext.gen_topup_cases(xrng, xnrng, SI, lack)
+        if not extra:
+            break
+        res2, errs2, cov2, opt2 = run_chunks(script, [c_ for c_, _ in extra], tnames)
+        cases += [c_ for c_, _ in extra]
+        datas += [d_ for _, d_ in extra]
+        results += res2
+        errs += errs2
+        for name, ls in cov2.items():
+            cov_lines.setdefault(name, set()).update(ls)
+        for m_, row in opt2.items():
+            for pn, col in row.items():
+                tgt = optlog.setdefault(m_, {}).setdefault(pn, {})
+                for v_, c_ in col.items():
+                    tgt[v_] = tgt.get(v_, 0) + c_
     for e in errs:
         ctx.fail('correspondence', 'implementation runner failed: ' + e[-600:], None)
     perm_lits, perm_meta, form_lits, form_meta = [], [], [], []
@@ -1628,9 +1678,12 @@ def main(ctx):
                 ctx.fail('oracle', 'spatial_inversion of an infinite MPS with non-uniform bond dimensions raises in test_sanity: _S is reversed '
                          'instead of mirrored around bond 0', info, match_key=K_INV)
             else:
+                broken = any(o2['op'] == 'extract_enlarged_segment' and ees_one_sided(o2, {'new_first_last': list(ees_range(o2))})
+                             for o2 in case['ops'][:e['step']])         # (operand with the wrong boundaries of the known finding)
                 ctx.fail('oracle', '%s raised %s: %s on a valid %s MPS (history %s)' % (opx['op'], e['type'], e['msg'][:200], bc,
                                                                                   [o['op'] for o in case['ops'][:e['step']]]),
-                         info, match_key='C09:%s:%s:raises' % (bc, opx['op']))
+                         info, match_key=K_EES if broken else (K_SINV if broken_inversion(case['ops'][:e['step']], r['obs']) else
+                                                               'C09:%s:%s:raises' % (bc, opx['op'])))
         if bc in ('finite', 'segment'):
             check_finite_case(ctx, case, r, A, key, D, SI, perm_lits, perm_meta)
         else:
@@ -1672,7 +1725,23 @@ def main(ctx):
         'C09 oracle: dense states in the stored local basis (site operator matrices taken from the site classes, which C12 checks); fermionic signs of site permutations computed from occupation parities; '
         'operators whose Jordan-Wigner string is applied through bond charges are compared up to the documented global sign (relative signs are compared) and are only generated on chains whose sites are all fermionic; a refusal (cannot extract JW signs) is accepted only when no conserved charge carries the fermion parity; '
         'histories whose documented result is the zero vector (|O psi| < 1e-9 |psi|; infinite: dominant eigenvalue ratio of the unit-cell transfer matrix < 1e-9, or the transformed unit-cell tensors have no closed path of non-zero entries through the unit cell = nilpotent transfer matrix, which is what a term changing a conserved charge in every unit cell produces) are excluded from that point on: no normalised MPS represents the zero vector, so the property cannot speak about it, and whatever exception the operator application raises there (ValueError destroys state, ZeroDivisionError, ArpackError starting vector is zero) is accepted, while an exception on a non-zero documented result is reported; compression is checked against the angle bound sum arcsin sqrt(eps_i); '
-        'infinite states through reduced density matrices from the transfer matrix of explicitly transformed unit-cell tensors',
+        'infinite states through reduced density matrices from the transfer matrix of explicitly transformed unit-cell tensors (dominant eigenvectors verified / recomputed by inverse iteration); '
+        'an operator application whose documented result has a degenerate dominant transfer-matrix eigenvalue (superposition of pure infinite states, no canonical form) ends the comparison',
+        'C09 segments: the state of a segment MPS is psi.norm * U_L.theta.V_R in the ORIGINAL bases of its outer legs (segment_boundaries included, as in C07); the reference starts from the first observation of the segment '
+        '(constructor: C07); operators needing a Jordan-Wigner string to the left of a segment are not generated (the string lives in the environment); gauge_total_charge / add refuse segments with recorded boundaries '
+        '(NotImplementedError: accepted); enlarge_chi leaves the outer legs of a segment alone',
+        'C09 truncating options: swap_sites / permute_sites / group_split with a truncating trunc_par (or the documented default chi_max = max(chi) of group_split) and compress(_svd): the state may change by the angle '
+        'sum arcsin sqrt(eps_i) of the reported error (variational compression: 2 (L-1) arcsin sqrt(max eps), heuristic); afterwards the reference continues from the state of the run, and since such a truncation leaves '
+        'the tensors only approximately canonical the next operation has to be canonical_form (generated that way); infinite states: reduced density matrices within 20 sqrt(eps L) + 1e-6 in trace norm (heuristic), exact when eps = 0',
+        'C09 results that are not functions of the dense state: perturb (norm, charge sector, dtype real for real states, canonical form when requested; then continued from the run), extract_segment (norm, reduced density '
+        'matrix on the kept sites and kept outer legs, Schmidt values), extract_enlarged_segment (normalised state = background A tensors . segment . background B tensors dumped from the background MPS; psi.norm is not compared: '
+        'the method documents none), compute_K (ov is an eigenvalue - without charges the dominant one - of the dense mixed transfer matrix with the permuted unit cell; identity permutation: |W| = s^2, sum W = exp(i k), U unitary; '
+        'non-trivial permutations only exchange sites of the same kind and, with charges, only the identity is drawn because the overlap may vanish in the charge sector compute_K looks at)',
+        'C09 exclusions decided against the property text: swap_op=autoInv is drawn only on chains that are entirely fermionic or entirely non-fermionic (on mixed neighbours the string option takes the plain transposition '
+        'while the documented operator would carry the phases (-i)^n; neither is a site permutation in the sense of the property); swap_op=None only without fermions; test_sanity complaining about the ORDER of tensor legs after '
+        'apply_product_op(unitary=True) is ignored (every accessor works by label; the state is compared as usual); after operations that append exactly zero singular values (enlarge_chi, subspace_expansion, add(cutoff=None)) '
+        'only operations that do not divide by singular values follow and norm_test() is not required to vanish (the alignment of singular values and bond basis is checked from the stored tensors instead); '
+        'enlarge_mps_unit_cell / roll on finite chains, non-trivial charge shifts (no such sites among the C07 states) and the error branches listed as unreached in the line table are outside the quantifier',
     ]
     return ctx.finish(RULE, 'theorems of coq/Props/C09.v on the models; permute_sites swap sequences and structural label/dimension bookkeeping replayed on the models; '
                       'dense oracle after every operation of every history')
@@ -1682,4 +1751,9 @@ RULE = ('finite chains L 2-7 and infinite unit cells 2-4(-8 after enlarging) of 
         'in random stored forms; histories of 1-6 operations out of apply_local_op (named incl. fermionic, random 1-3 site, unitary or not, renormalize or not), apply_product_op, '
         'apply_local_term (odd and even numbers of fermionic operators, i_offset, autoJW, canonicalize, renormalize; infinite: even terms within one unit-cell length), swap_sites, permute_sites, add, group_sites+group_split, enlarge_chi, compress(_svd), spatial_inversion, roll_mps_unit_cell, enlarge_mps_unit_cell, convert_form; '
         'stream fermi-terms: chains of 3-8 fermionic sites conserving N / parity in states with both parities on every site, histories of 1-3 term / named-operator / product applications over all their options; '
+        'streams options-*: for each of the 24 transformation methods of tenpy.networks.mps.MPS (incl. compute_K, perturb, subspace_expansion, get_grouped_mps, extract_(enlarged_)segment, gauge_total_charge, copy), each boundary condition '
+        'it documents (finite L 2-6, infinite unit cells 2-4, segments of 2-5 sites of finite and infinite states with outer bonds chi > 1) and each value class of each parameter (c09_cover.OPTION_SPACE: defaults = keyword not passed, '
+        'boundary indices 0 / L-1 / negative / beyond the unit cell / across the cell boundary, shift 0 / L, alpha, beta in {0, 1, real, complex}, swap_op auto / autoInv / None / explicit Array, trunc_par default / None / loose / truncating, '
+        'cutoffs, LegCharge / None / int extra legs, operator legs in permuted order, single operator instead of a list, ...) at least one history [earlier operations] -> the call -> [operations on its result], re-drawn when the call was refused; '
+        'stream refusals: 25 calls the documentation excludes; '
         'non-trivial = some bond dimension > 1; distinct = distinct (state spec, history)')
